@@ -432,7 +432,7 @@ theorem afterPosted_delta {nt : Nat} (s : St) (t : Tok) (l : Ledger) (src dst : 
     | gas =>
       cases data with
       | other => exact hd'.throw
-      | pub p w => exact hd'.throw
+      | pub p => exact hd'.throw
       | notary dto till =>
         simp only []
         cases hn : notaryOnPayment s.env l src amt dto till with
@@ -453,9 +453,9 @@ theorem afterPosted_delta {nt : Nat} (s : St) (t : Tok) (l : Ledger) (src dst : 
         cases data with
         | other => exact hd'.throw
         | notary dto till => exact hd'.throw
-        | pub p w =>
+        | pub p =>
           simp only []
-          cases hn : neoOnPayment s.env l amt p w with
+          cases hn : neoOnPayment s.env l amt p (witOf s.env (acctOf s.env p) (some s.env.gasC) s.env.neoC) with
           | none => exact hd'.throw
           | some l' =>
             exact DInv.fin h hd' l' d1 d2 (hl0.neoOnPayment h.neoC hn) (hs.trans (neoOnPayment_step _ _ _ _ _ _ hl0 hn))
@@ -529,6 +529,55 @@ theorem neoPostPersist_step {nt : Nat} {dn dg k : Int} (e : Env) (l l' : Ledger)
             exact s1.trans (Step.of_sameCore (sameCore_voterRewards _ _ _ _ _) (voterRewards_events _ _ _ _ _))
           · injection h with h; subst h; exact s1
 
+theorem neoPostPersistAll_step {nt : Nat} {dn dg k : Int} (e : Env) (l l' : Ledger)
+    (hi : InvG nt dn dg k l) (h : neoPostPersistAll e l = some l') : Step l l' := by
+  unfold neoPostPersistAll at h
+  cases hp : neoPostPersist e l (l.committee.map (fun c => (c.1, acctOf e c.1, c.2))) with
+  | none => simp [hp] at h
+  | some l1 =>
+    simp only [hp] at h
+    have s1 := neoPostPersist_step e l l1 _ hi hp
+    split at h
+    · split at h
+      · exact s1.trans (Step.of_sameCore (sameCore_updateNewEpoch _ _ _ h) (updateNewEpoch_events _ _ _ h))
+      · injection h with h; subst h; exact s1
+    · injection h with h; subst h; exact s1
+
+theorem blockAccount_step {nt : Nat} (e : Env) (l l' : Ledger) (acc : Nat) (b : Bool)
+    (hi : Inv nt l) (h : blockAccount e l acc = some (l', b)) : Step l l' := by
+  unfold blockAccount at h
+  split at h
+  · injection h with h; injection h with h1 _; subst h1; exact Step.refl _
+  · obtain ⟨hv, hev, hgas, hbal⟩ := votePre_inv e l acc none true hi
+    simp only [] at h
+    have mk : ∀ l1 : Ledger, Inv nt l1 → l1.events = l.events → l1.gas = l.gas →
+        (∀ a, at0 (·.bal) l1.neo a = at0 (·.bal) l.neo a) → Step l l1 := by
+      intro l1 _ hev' hgas' hbal'
+      exact ⟨[], by simp [hev'], fun t a => by
+        cases t with
+        | neo => simp [balOf, evNet, hbal' a]
+        | gas => simp [balOf, evNet, hgas']⟩
+    have cont : ∀ l1 : Ledger, Step l1 { l1 with blocked := acc :: l1.blocked, votesChanged := true } := fun l1 =>
+      Step.of_sameCore ⟨rfl, rfl, rfl, rfl, rfl, rfl, rfl⟩ rfl
+    split at h
+    · rename_i l1 _ hvp
+      rw [hvp] at hv hev hgas hbal
+      injection h with h; injection h with h1 _; subst h1
+      exact (mk l1 hv hev hgas hbal).trans (cont l1)
+    · rename_i l1 hvp
+      rw [hvp] at hv hev hgas hbal
+      injection h with h; injection h with h1 _; subst h1
+      exact (mk l1 hv hev hgas hbal).trans (cont l1)
+    · rename_i l1 g hvp
+      rw [hvp] at hv hev hgas hbal
+      cases hm : mintGasCb e l1 acc g with
+      | none => simp [hm] at h
+      | some l2 =>
+        simp only [hm] at h
+        injection h with h; injection h with h1 _; subst h1
+        have hv' : Inv nt l1 := hv
+        exact ((mk l1 hv hev hgas hbal).trans (mintGasCb_step e l1 l2 acc g hv' hm)).trans (cont l2)
+
 theorem exec_delta {nt : Nat} (s : St) (op : Op) (h : MInv nt s) (hd : DInv s) : DInv (exec s op) := by
   cases op with
   | block idx =>
@@ -536,49 +585,51 @@ theorem exec_delta {nt : Nat} (s : St) (op : Op) (h : MInv nt s) (hd : DInv s) :
     have he : (neoOnPersist { s.env with index := idx } { s.cur with events := [] }).events = [] := by
       rw [neoOnPersist_events]
     exact ⟨Delta.start _ he, Delta.start _ he⟩
-  | onPersist primary notaries txs =>
+  | onPersist pidx notaries txs =>
     simp only [exec]
     split
-    · exact hd
-    · rename_i hA1
-      split
+    · exact ⟨hd.cur, hd.snap⟩
+    · split
       · exact hd
-      · rename_i hA2
-        have hp : primary ≠ nt := by
-          intro hp; apply hA1; left; rw [h.notary]; exact hp
-        have hn : ¬ notaries.contains nt = true := by
-          intro hn; apply hA1; right; rw [h.notary]; exact hn
-        have hok : txsOK nt txs := by
-          intro t ht hs
-          by_cases hx : t.nkeys.isSome = true ∧ t.payer.isSome = true
-          · exact hx
-          · exfalso; apply hA2
-            simp only [List.any_eq_true]
-            refine ⟨t, ht, ?_⟩
-            rw [h.notary]
-            simp only [hs, true_and, decide_eq_true_eq]
-            cases hk : t.nkeys <;> cases hq : t.payer <;> simp_all
-        cases h1 : gasOnPersist s.env s.cur primary txs with
-        | none => exact ⟨hd.cur, hd.snap⟩
-        | some l1 =>
-          simp only []
-          have s1 := gasOnPersist_step s.env s.cur l1 primary txs h.cur h1
-          have hg := gasOnPersist_inv s.env s.cur l1 primary txs h.cur hp h1
-          cases h2 : notaryOnPersist s.env l1 notaries txs with
+      · rename_i hA1
+        split
+        · exact hd
+        · rename_i hA2
+          have hp : acctOf s.env ((s.cur.nextVals[pidx]?).getD 0) ≠ nt := by
+            intro hp; apply hA1; left; rw [h.notary]; exact hp
+          have hn : ¬ notaries.contains nt = true := by
+            intro hn; apply hA1; right; rw [h.notary]; exact hn
+          have hok : txsOK nt txs := by
+            intro t ht hs
+            by_cases hx : t.nkeys.isSome = true ∧ t.payer.isSome = true
+            · exact hx
+            · exfalso; apply hA2
+              simp only [List.any_eq_true]
+              refine ⟨t, ht, ?_⟩
+              rw [h.notary]
+              simp only [hs, true_and, decide_eq_true_eq]
+              cases hk : t.nkeys <;> cases hq : t.payer <;> simp_all
+          cases h1 : gasOnPersist s.env s.cur (acctOf s.env ((s.cur.nextVals[pidx]?).getD 0)) txs with
           | none => exact ⟨hd.cur, hd.snap⟩
-          | some l2 =>
-            have s2 := notaryOnPersist_step s.env l1 l2 notaries txs hg h.notary hok hn h2
-            exact ⟨hd.cur.step (s1.trans s2), hd.cur.step (s1.trans s2)⟩
-  | postPersist committee =>
+          | some l1 =>
+            simp only []
+            have s1 := gasOnPersist_step s.env s.cur l1 _ txs h.cur h1
+            have hg := gasOnPersist_inv s.env s.cur l1 _ txs h.cur hp h1
+            cases h2 : notaryOnPersist s.env l1 notaries txs with
+            | none => exact ⟨hd.cur, hd.snap⟩
+            | some l2 =>
+              have s2 := notaryOnPersist_step s.env l1 l2 notaries txs hg h.notary hok hn h2
+              exact ⟨hd.cur.step (s1.trans s2), hd.cur.step (s1.trans s2)⟩
+  | postPersist =>
     simp only [exec]
     split
     · exact hd
-    · cases hpp : neoPostPersist s.env s.cur committee with
+    · cases hpp : neoPostPersistAll s.env s.cur with
       | none => exact ⟨hd.cur, hd.snap⟩
       | some l =>
-        have st := neoPostPersist_step s.env s.cur l committee h.cur hpp
+        have st := neoPostPersistAll_step s.env s.cur l h.cur hpp
         exact ⟨hd.cur.step st, hd.cur.step st⟩
-  | txBegin sender =>
+  | txBegin sender signers =>
     simp only [exec]
     exact ⟨hd.cur, hd.cur⟩
   | txEnd abort =>
@@ -597,11 +648,11 @@ theorem exec_delta {nt : Nat} (s : St) (op : Op) (h : MInv nt s) (hd : DInv s) :
         have h' : MInv nt { s with cbs := rest } := ⟨h.notary, h.neoC, h.cur, h.snap⟩
         have hd'' : DInv { s with cbs := rest } := ⟨hd.cur, hd.snap⟩
         exact DInv.fin h' hd'' s.cur f.d1 f.d2 h.cur (Step.refl _)
-  | transfer t src dst amt wit recv data =>
+  | transfer t src dst amt caller recv data =>
     simp only [exec]
     split
     · exact hd
-    · cases hp : transferPre t s.env s.cur src dst amt (wit && src != s.env.notary) with
+    · cases hp : transferPre t s.env s.cur src dst amt (witOf s.env src caller (tokC s.env t) && src != s.env.notary) with
       | thr => exact hd.throw
       | ret l b =>
         simp only []
@@ -616,7 +667,7 @@ theorem exec_delta {nt : Nat} (s : St) (op : Op) (h : MInv nt s) (hd : DInv s) :
         have st := transferPre_posted_step t s.env s.cur src dst amt _ l d1 d2 h.cur hp
         have hsrc : src ≠ nt := by
           intro hs
-          have : (wit && src != s.env.notary) = false := by rw [h.notary, hs]; simp
+          have : (witOf s.env src caller (tokC s.env t) && src != s.env.notary) = false := by rw [h.notary, hs]; simp
           rw [this] at hp
           unfold transferPre at hp
           simp only [] at hp
@@ -628,12 +679,12 @@ theorem exec_delta {nt : Nat} (s : St) (op : Op) (h : MInv nt s) (hd : DInv s) :
               (if t = .gas ∧ dst = nt then amt else 0) := by simp [hsrc]
           rw [e1] at hl; exact hl
         exact afterPosted_delta s t l src dst amt recv data d1 d2 h hd hl' ha st
-  | vote acc pub wit =>
+  | vote acc pub caller =>
     simp only [exec]
     split
     · exact hd
-    · obtain ⟨hv, hev, hgas, hbal⟩ := votePre_inv s.env s.cur acc pub wit h.cur
-      cases hvp : votePre s.env s.cur acc pub wit with
+    · obtain ⟨hv, hev, hgas, hbal⟩ := votePre_inv s.env s.cur acc pub (witOf s.env acc caller s.env.neoC) h.cur
+      cases hvp : votePre s.env s.cur acc pub (witOf s.env acc caller s.env.neoC) with
       | mk l r =>
         obtain ⟨b, g⟩ := r
         rw [hvp] at hv hev hgas hbal
@@ -661,27 +712,27 @@ theorem exec_delta {nt : Nat} (s : St) (op : Op) (h : MInv nt s) (hd : DInv s) :
     split
     · exact hd
     · exact hd.done _ .t (registerInternal_step _ _)
-  | unregister pub wit =>
+  | unregister pub caller =>
     simp only [exec]
     split
     · exact hd
     · exact hd.done _ _ (unregister_step _ _ _)
-  | lock acc till wit =>
+  | lock acc till caller =>
     simp only [exec]
     split
     · exact hd
     · exact hd.done _ _ (lockDeposit_step _ _ _ _ _)
-  | withdraw src dst wit recv =>
+  | withdraw src dst caller recv =>
     simp only [exec]
     split
     · exact hd
-    · cases hw : withdrawPre s.env s.cur src wit with
+    · cases hw : withdrawPre s.env s.cur src (witOf s.env src caller s.env.notary) with
       | none => exact hd.done s.cur .f (Step.refl _)
       | some r =>
         obtain ⟨l, amt⟩ := r
         simp only []
         obtain ⟨hl, ha⟩ := h.cur.withdrawPre hw
-        have s1 := withdrawPre_step s.env s.cur l src wit amt hw
+        have s1 := withdrawPre_step s.env s.cur l src _ amt hw
         cases hp : transferPre .gas s.env l s.env.notary (dst.getD src) amt true with
         | thr => exact hd.throw
         | ret l' b => exact hd.throw
@@ -695,11 +746,11 @@ theorem exec_delta {nt : Nat} (s : St) (op : Op) (h : MInv nt s) (hd : DInv s) :
                 (if Tok.gas = Tok.gas ∧ dst.getD src = nt then amt else 0) := by simp [h.notary]; omega
             rw [e1] at hl'; exact hl'
           exact afterPosted_delta s .gas l' s.env.notary (dst.getD src) amt recv .other d1 d2 h hd hl'' ha (s1.trans s2)
-  | setGpb gas wit =>
+  | setGpb gas caller =>
     simp only [exec]
     split
     · exact hd
-    · cases hs : setGasPerBlock s.env s.cur gas wit with
+    · cases hs : setGasPerBlock s.env s.cur gas (witCommittee s.env s.cur caller s.env.neoC) with
       | none => exact hd.throw
       | some l =>
         have : l.events = s.cur.events := by
@@ -710,11 +761,11 @@ theorem exec_delta {nt : Nat} (s : St) (op : Op) (h : MInv nt s) (hd : DInv s) :
             · simp at hs
             · injection hs with hs; subst hs; rfl
         exact hd.done l .null (Step.of_sameCore (sameCore_setGasPerBlock _ _ _ _ _ hs) this)
-  | setRegPrice price wit =>
+  | setRegPrice price caller =>
     simp only [exec]
     split
     · exact hd
-    · cases hs : setRegisterPrice s.cur price wit with
+    · cases hs : setRegisterPrice s.cur price (witCommittee s.env s.cur caller s.env.neoC) with
       | none => exact hd.throw
       | some l =>
         have : l.events = s.cur.events := by
@@ -725,6 +776,27 @@ theorem exec_delta {nt : Nat} (s : St) (op : Op) (h : MInv nt s) (hd : DInv s) :
             · simp at hs
             · injection hs with hs; subst hs; rfl
         exact hd.done l .null (Step.of_sameCore (sameCore_setRegisterPrice _ _ _ _ hs) this)
+  | blockAcc acc caller =>
+    simp only [exec]
+    split
+    · exact hd
+    · split
+      · exact hd.throw
+      · split
+        · exact hd.throw
+        · cases hb : blockAccount s.env s.cur acc with
+          | none => exact hd.throw
+          | some r =>
+            obtain ⟨l, b⟩ := r
+            exact hd.done l _ (blockAccount_step s.env s.cur l acc b h.cur hb)
+  | unblockAcc acc caller =>
+    simp only [exec]
+    split
+    · exact hd
+    · split
+      · exact hd.throw
+      · refine hd.done _ _ (Step.of_sameCore (sameCore_unblockAccount _ _) ?_)
+        unfold unblockAccount; split <;> rfl
 
 theorem step_delta {nt : Nat} (s : St) (op : Op) (h : MInv nt s) (hd : DInv s) : DInv (step s op) := by
   unfold step
